@@ -110,6 +110,9 @@ func (h *hasher) val(v Value) {
 	case FloatV:
 		h.u(3)
 		h.u(math.Float64bits(x.F))
+	case SymBytesV:
+		h.u(21)
+		h.u(h.in.tc.thash(x.S))
 	case Ptr:
 		h.u(4)
 		if x.Base == nil {
